@@ -5,7 +5,7 @@ Every check must exit 0 (listed KNOWN-FINDINGs allowed): a VIOLATION or an infra
 usage: run_benign.py [id-prefix] [-j N]"""
 import glob, json, os, shutil, subprocess, sys
 from concurrent.futures import ThreadPoolExecutor
-V = "/verif"
+V = __import__("os").path.dirname(__import__("os").path.dirname(__import__("os").path.abspath(__file__)))
 sys.path.insert(0, V + "/engine/rules")
 import selftest
 args = sys.argv[1:]
